@@ -28,7 +28,7 @@ EXPLANATION = ("Theorems at table level: one ballot per distinct pattern of the 
                "documented errors for empty data / blank id / duplicate id; Scottish parser rejects inconsistent "
                "metadata.")
 
-N_QUICK, N_THOROUGH = 500, 6000
+N_QUICK, N_THOROUGH = 500, 18000
 NAMES = ["Ann Lee", 'Bo "B" Ray', "Cy, Jr.", "dee", "E.F.", "Gus"]
 
 
